@@ -45,8 +45,9 @@ func genCursorCase(maxSize, maxMoves int, random bool) func(core.Source) cursorC
 
 // cursorModel is the abstract cursor: a slot in 0..size over a fixed snapshot.
 type cursorModel struct {
-	vals []int
-	slot int
+	vals     []int
+	slot     int
+	clampLow int // the slot every ToSlot(k < -size) lands on, once observed (-1 = not yet)
 }
 
 // stepCursor applies one move to iterator and model and compares everything observable.
@@ -102,6 +103,11 @@ func stepCursor(it age.IteratorLike[int], m *cursorModel, mv itMove, step int) (
 			if got != 0 && !(got == 1 && size >= 1) {
 				return core.Violate("C17/ToSlot/clamp", "step %d: ToSlot(%d) on size %d left slot %d", step, mv.K, size, got), classes
 			}
+			// clamping maps every slot below the range to one and the same boundary slot
+			if m.clampLow >= 0 && got != m.clampLow {
+				return core.Violate("C17/ToSlot/clamp-inconsistent", "step %d: ToSlot(%d) on size %d left slot %d, an earlier slot below -size was clamped to %d", step, mv.K, size, got, m.clampLow), classes
+			}
+			m.clampLow = got
 			m.slot = got
 		}
 	}
@@ -131,7 +137,7 @@ func execCursorCase(c cursorCase, _ core.Source) (res core.Result) {
 	} else {
 		it = col.List[int](lib.Notation()).MakeFromArray(vals).GetIterator()
 	}
-	m := &cursorModel{vals: vals}
+	m := &cursorModel{vals: vals, clampLow: -1}
 	if it.GetSlot() != 0 || it.HasPrevious() || it.HasNext() != (c.Size > 0) || it.GetSize() != c.Size {
 		res.Violation = core.Violate("C17/initial", "a new iterator over %d values starts at slot %d, HasNext %v, size %d", c.Size, it.GetSlot(), it.HasNext(), it.GetSize())
 		return
